@@ -584,10 +584,19 @@ example : Gen.rruleStr sample = toStr sample := gen_str_eq_model sample (by
 
 /-! ## 14. the part parser as written: `_parse_rfc_rrule` and the `_handle_*` dispatch translated from source -/
 
+/-- the item splitter of `_handle_BYWEEKDAY` as translated from source — `if '(' in wday:` (`splt = wday.split('(')`, `splt[0]`,
+    `int(splt[1][:-1])`), `elif len(wday):` with the scan `for i in range(len(wday)): if wday[i] not in '+-0123456789': break`,
+    `n = wday[:i] or None`, `w = wday[i:]`, `if n: n = int(n)`, else ValueError; then `weekdays[self._weekday_map[w]](n)` — equals the
+    model's `parseWDay` on EVERY text (so `byday_spellings` and `malformed_byday_items` hold of the code as written) -/
+theorem gen_wday_eq_model (w : List Char) : Gen.rrsWDay w = parseWDay w := gen_wday_eq w
+
+example : Gen.rrsWDay (lit "MO(+1)") = .ok (0, some 1) ∧ Gen.rrsWDay (lit "-2FR") = .ok (4, some (-2)) ∧
+    Gen.rrsWDay (lit "12") = .error .KeyError ∧ Gen.rrsWDay (lit "0MO") = .error .ValueError := by decide
+
 /-- `getattr(self, "_handle_" + name)(…)` resolved against the class body as written — `_handle_int` (INTERVAL, COUNT),
     `_handle_int_list` (the nine integer BY parts), `_handle_FREQ` / `_handle_WKST` with the dumped `_freq_map` / `_weekday_map`,
-    `_handle_UNTIL` (text and options kept for `parser.parse`), BYWEEKDAY = BYDAY — equals the model's `handleU`, for every name and
-    value.  (`_handle_BYWEEKDAY`'s item splitter is still the hand model `parseWDay`: not translated.) -/
+    `_handle_UNTIL` (text and options kept for `parser.parse`), `_handle_BYWEEKDAY` = BYDAY with its translated item splitter
+    (`gen_wday_eq_model`) — equals the model's `handleU`, for every name and value. -/
 theorem gen_handle_eq_model (name value : List Char) : Gen.rrsHandle po name value = handleU po name value :=
   gen_handle_eq po name value
 
